@@ -22,7 +22,7 @@ use serde_json::{Value, json};
 
 /// (field type, prefix before the amount, suffix after it, length limit of the amount (d), has currency)
 /// `{CCY}` in the prefix is replaced by the currency under test.
-const FIELDS: &[(&str, &str, &str, usize, bool)] = &[
+pub const FIELDS: &[(&str, &str, &str, usize, bool)] = &[
     ("Field19", "", "", 17, false),
     ("Field32A", "250615{CCY}", "", 15, true),
     ("Field32B", "{CCY}", "", 15, true),
@@ -302,7 +302,7 @@ fn dec_class(allowed: Option<usize>) -> String {
     }
 }
 
-const SPELLINGS: &[(&str, &str)] = &[
+pub const SPELLINGS: &[(&str, &str)] = &[
     ("NaN", "NaN"), ("nan", "nan"), ("inf", "inf"), ("infinity", "infinity"), ("-inf", "-inf"), ("1e3", "1e3"), ("1E-2", "1E-2"), ("1,5e2", "1,5e2"),
     ("plus-sign", "+5,00"), ("minus-sign", "-5,00"), ("minus-zero", "-0"), ("leading-dot", ".5"), ("leading-comma", ",5"), ("trailing-dot", "5."), ("dot-decimal", "1.5"),
     ("two-commas", "1,5,5"), ("comma-and-dot", "1,000.50"), ("inner-blank", "1 5"), ("leading-blank", " 5,00"), ("trailing-blank", "5,00 "), ("hex", "0x10"),
